@@ -6,7 +6,7 @@ from lib.facts import callee, callee_def, op_local
 META = {
     "level": "other",
     "technique": "static analysis: table extraction from MIR switch terminators (token kind -> operator kind -> typing arm) compared with Gleam's operator typing and with the parser's binding-power table",
-    "rule": "Y3 freezing a type variable restores its table entry on every path; Y2 the call graph that forms the inference groups resolves a variable with an expression-level resolver (a local binder named "
+    "rule": "Y4 the inferencer's resolver is swapped only by save-and-restore on every path; Y3 freezing a type variable restores its table entry on every path; Y2 the call graph that forms the inference groups resolves a variable with an expression-level resolver (a local binder named "
             "like a top-level function is not a call edge); Y1 every binary operator the parser accepts (infix_bp != None, except |>) has an operator kind in BinaryOp::op_details, "
             "and that kind reaches an arm of the inferencer that unifies the operands with each other and with the operand type Gleam "
             "prescribes, and yields Gleam's result type (Int/Float arithmetic, Int/Float comparison -> Bool, equality -> Bool, "
@@ -229,6 +229,7 @@ def run(F, res, tier):
     put = [b for b in reps if b not in take[:1] and all(cu.dominates(b, r) for r in rets)]
     res.ob("Y3", "collector-restores-entry", "Collector::collect_uncached takes the variable's entry out of the table and puts it back on every path to return",
            len(reps) >= 2 and bool(take) and bool(put), where=cu.loc(), how="mem::replace(table.get_mut(i), ..) sites %d, dominating every return: %d" % (len(reps), len(take) + len(put)))
+    resolver_swaps(F, res)
     pure = teval.Pure(F)
     kinds = F.variants(SK)
     infix = [k for k in kinds if pure.call(SK + "::infix_bp", [("e", SK, k)])[2] == "Some"]
@@ -268,3 +269,76 @@ def run(F, res, tier):
                % (k, opnd or "of any one type", opnd if result == "same" else result),
                ok_operands and ok_opnd and ok_res, where=fn.loc(),
                how="kind %s; unify_var_ty calls %s; operands unified with each other: %s; arm yields %s" % (bk, tys, ok_operands, a["results"]))
+
+
+def resolver_swaps(F, res, rule="Y4"):
+    """Y4: the inferencer's name resolver is swapped (to the module that declares a function / alias / variant) only by a
+    save-and-restore: every write of InferCtx.resolver with a new value goes through mem::replace, and on every path from
+    there to a return the saved value is written back. (An unrestored swap resolves the rest of a signature in the wrong
+    module.)"""
+    from lib import effects as EF
+    IC_ = "ide::ty::infer::InferCtx"
+    ws = EF.writers(F, IC_, "resolver", "ide::")
+    by_fn = {}
+    for f, e in ws:
+        if e["how"] == "mutborrow" and FL.short(e.get("callee") or "") != "mem::replace":
+            continue        # the &mut borrow that feeds the mem::replace call itself
+        by_fn.setdefault(f.path, []).append(e)
+    n = 0
+    for path, es in sorted(by_fn.items()):
+        f = F.fns[path]
+        d = FL.Defs(f)
+        rets = f.return_blocks()
+        sites = []      # (bb, kind, saved result local | None, value origin)
+        for e in es:
+            bb = e["bb"]
+            if e["how"] == "assign":
+                o = d.origin_rv(e["rv"], None, bb, 0, ())
+                sites.append((bb, "assign", None, o, e["ln"]))
+            else:
+                t = f.term(bb)
+                o = d.origin_op(t["args"][1])
+                sites.append((bb, "replace", t["dest"]["l"] if not t["dest"]["p"] else None, o, e["ln"]))
+
+        # saves: calls that read the current resolver out into a value (mem::replace / mem::take on the field, or a clone of it)
+        saves = {s_[0] for s_ in sites if s_[1] == "replace"}
+        for b2, t2 in f.calls():
+            c2 = FL.short(callee(t2) or callee_def(t2))
+            if c2.endswith("Clone::clone") or c2 == "mem::take":
+                a = d.origin_op(t2["args"][0])
+                names = []
+                while a.get("k") == "field":
+                    names += [e_.get("n") for e_ in a.get("proj", []) if isinstance(e_, dict)]
+                    a = a["base"]
+                if "resolver" in names:
+                    saves.add(b2)
+
+        def saved_by(o):
+            """bb of the save whose result this value is, if any"""
+            base = o
+            while base.get("k") == "field":
+                base = base["base"]
+            if base.get("k") == "call" and base["bb"] in saves:
+                return base["bb"]
+            return None
+        restores = {}
+        for bb, kind, dest, o, ln in sites:
+            sb = saved_by(o)
+            if sb is not None:
+                restores.setdefault(sb, []).append(bb)
+        swapins = [s_ for s_ in sites if saved_by(s_[3]) is None]
+        for bb, kind, dest, o, ln in swapins:
+            n += 1
+            ordn = [s_[0] for s_ in swapins].index(bb)
+            if kind == "assign":
+                mine = [sv for sv in saves if f.dominates(sv, bb) and sv != bb]
+            else:
+                mine = [bb]
+            back = [r for sv in mine for r in restores.get(sv, [])]
+            leak = f.can_reach(bb, rets, avoid=back) if back else True
+            res.ob(rule, "%s/swap/%d" % (path.rsplit("::", 1)[-1], ordn),
+                   "the resolver swapped in here replaces a saved one, and the saved value is written back to InferCtx.resolver on every path to return",
+                   bool(mine) and bool(back) and not leak, where=f.loc(ln),
+                   how=("the previous resolver is not saved" if not mine else
+                        "restoring writes: %d; a return is reachable without them: %s" % (len(back), leak)))
+    res.floor("resolver swap-in sites in the inferencer", n, 5)
